@@ -54,7 +54,9 @@ def check(run):
 
 
 MUTANTS = [
-    Mutant("dodoer-due-lt", M, "DoDoer.recur", "if retyme <= tyme:", "if retyme < tyme:", {"C04.R1"}, canary=True),
+    Mutant("reintroduce-dodoer-asap-from-own-tock", M, "DoDoer.recur", "                        retyme = None  # rerun at next recur whenever that is", "                        retyme = tyme + self.tock", {"C04.R1"}, canary=True),
+    Mutant("dodoer-asap-marker-not-resolved", M, "DoDoer.recur", "                if retyme is None:  # rerun asap so base of cumulative retyme is now\n                    retyme = tyme\n", "", {"C04.R1"}),
+    Mutant("dodoer-due-lt", M, "DoDoer.recur", "if retyme is None or retyme <= tyme:", "if retyme is None or retyme < tyme:", {"C04.R1"}, canary=True),
     Mutant("dodoer-exit-popleft", M, "DoDoer.exit", "deeds.pop()", "deeds.popleft()", {"C04.R1"}),
     Mutant("dodoer-extend-no-filter", M, "DoDoer.extend", "        doers = [doer for doer in doers if doer not in self.doers] # ensure unique\n", "", {"C04.R1"}),
     Mutant("dodoer-foreign-tymth", M, "DoDoer.enter", "dog = doer(tymth=self.tymth,", "dog = doer(tymth=None,", {"C04.R1"}, canary=True),
